@@ -143,6 +143,12 @@ func (db *DB) Merge() error {
 			return err
 		}
 	}
+	// 重写过程中轮转产生的旧文件同样需要关闭, 否则数据未持久化且 mmap 文件保持预分配大小
+	for _, file := range mergeDB.olderFiles {
+		if err := file.Close(); err != nil {
+			return err
+		}
+	}
 
 	// 在 merge 临时目录创建并打开 merge 完成标识文件
 	mergeFinishedFile, err := datafile.OpenFile(mergePath, 0,
